@@ -198,6 +198,9 @@ type Engine struct {
 	authzStats *authzStats
 	Trace []string // human readable log for replay output
 	KeepTrace bool
+	// Nudge: after every step let 2 virtual minutes pass, so that no result-retry
+	// sleeper survives into the next step (used when sessions have tiny queues).
+	Nudge    bool
 	Baseline map[wamp.URI]router.VerifSizes // H1 snapshot right after start
 }
 
@@ -432,6 +435,18 @@ func (e *Engine) buildMsg(op *Op) wamp.Message {
 		return &wamp.Call{Request: req, Options: opts, Procedure: wamp.URI(op.URI), Arguments: args, ArgumentsKw: kw}
 	case "raw":
 		return buildRaw(op.Msg, res)
+	case "bytes":
+		var b []byte
+		if len(op.Args) > 0 {
+			b, _ = op.Args[0].Go().([]byte)
+		}
+		return &rawBytesMsg{B: b}
+	case "wsframe":
+		var b []byte
+		if len(op.Args) > 0 {
+			b, _ = op.Args[0].Go().([]byte)
+		}
+		return &rawWSMsg{Type: op.N, B: b}
 	}
 	return nil
 }
@@ -474,11 +489,16 @@ func (e *Engine) execOp(idx int, op *Op, st *StepRec) {
 		e.startSession(s)
 		e.queue(s, helloFor(&s.Cfg), idx)
 		return
+	case "attach":
+		// open the transport (the router starts waiting for HELLO) without sending anything
+		e.startSession(e.Sess[op.S])
+		return
 	case "drop":
 		s := e.Sess[op.S]
 		if s.lk != nil && !s.Dropped {
 			s.Dropped = true
 			s.stopSender()
+			s.senderWG.Wait() // never close a channel the sender may still be sending on
 			s.lk.drop()
 		}
 		return
@@ -530,6 +550,7 @@ func (e *Engine) execOp(idx int, op *Op, st *StepRec) {
 
 // settle waits for quiescence, drains all inboxes and records what happened.
 func (e *Engine) settle(st *StepRec) {
+	nudged := false
 	for round := 0; round < 50; round++ {
 		synctest.Wait()
 		progress := false
@@ -566,6 +587,11 @@ func (e *Engine) settle(st *StepRec) {
 			}
 		}
 		if !progress {
+			if e.Nudge && !nudged {
+				nudged = true
+				time.Sleep(2 * time.Minute)
+				continue
+			}
 			break
 		}
 	}
@@ -679,6 +705,7 @@ func (e *Engine) Run(o Oracle) *Violation {
 		if s.lk != nil && !s.Dropped {
 			s.Dropped = true
 			s.stopSender()
+			s.senderWG.Wait()
 			s.lk.drop()
 		}
 	}
@@ -715,9 +742,16 @@ func (e *Engine) Abandon() {
 		if s.lk != nil && !s.Dropped {
 			s.Dropped = true
 			s.stopSender()
+			s.senderWG.Wait()
 			s.lk.drop()
 		}
 	}
+	synctest.Wait()
+	// Let every retry/timeout sleeper finish before Close: a handler sleeping
+	// on the fake clock while holding up a join (which holds realm.closeLock)
+	// would make realm.close() wait on a sync.Mutex, which synctest does not
+	// treat as durably blocked - the bubble would hang in real time.
+	time.Sleep(2 * time.Hour)
 	synctest.Wait()
 	if e.R != nil && !e.RouterClosed {
 		e.RouterClosed = true
